@@ -23,6 +23,7 @@ def make_pool(rng, style):
     return nodes, eids
 
 ITER_OK = True     # member collections may be presented as tuples / one-shot iterators (common.members)
+INTLIKE_OK = True  # explicit integer ids may be presented as numpy integers / whole floats (PRESENT)
 STYLES = ["int", "int", "int", "str", "mixed", "tuple"]
 ATTR_KEYS = ["color", "w", "name"]
 ATTR_VALS = [1, 2, "red", "blue", None, 7]
